@@ -244,11 +244,11 @@ var caretTol = math.Atan(1.0/32767)/2*1.02 + 1e-12
 // in the OpenType specification ("hhea" chapter); ok* tell whether the
 // definition yields a value the int16 field can hold.
 type hheaDerived struct {
-	advMax                       int
-	haveBoxes                    bool
-	minLSB, minRSB, maxExtent    int
-	okLSB, okRSB, okExtent       bool
-	anyNonEmpty                  bool
+	advMax                    int
+	haveBoxes                 bool
+	minLSB, minRSB, maxExtent int
+	okLSB, okRSB, okExtent    bool
+	anyNonEmpty               bool
 }
 
 func deriveHhea(widths []funit.Int16, lsb []funit.Int16, ext []funit.Rect16) hheaDerived {
